@@ -424,9 +424,9 @@ func (fr *frame) applyContract(con *Contract, key string, args []SV, cur *State,
 		}
 		sort.Strings(names)
 		for _, k := range names {
-			if !fr.keptGhost(k) {
-				cur.heaps[k] = vc.fresh("hv_"+k, vc.heapSort[k])
-			}
+			// a callee under contract that `modifies everything` may change every ghost: what it leaves alone must be
+			// said by its ensures (the caller's `keeps` speaks about OPAQUE callees only)
+			cur.heaps[k] = vc.fresh("hv_"+k, vc.heapSort[k])
 		}
 	}
 	for _, cl := range con.Clauses {
